@@ -493,6 +493,33 @@ theorem inv4_send {st : State} (h : Inv st) (h4 : Inv4 st) (k p : Nat) : Inv4 (d
           · intro _; exact List.mem_append.mpr (Or.inl hr)
           · intro f _ x _; exact hr
 
+theorem inv4_sendResume {st : State} (h : Inv st) (h4 : Inv4 st) (k p : Nat) : Inv4 (doSendResume st k p).1 := by
+  unfold doSendResume
+  split
+  · exact h4
+  · rename_i s cn hl
+    have ok := h.subOk s (lookup_mem hl)
+    obtain ⟨hs, hc⟩ := lookup_some hl
+    split
+    · exact h4
+    · rename_i hcl
+      have hcl : s.clones > 0 := by
+        have : ¬ s.clones = 0 := by simpa using hcl
+        omega
+      have hacc := ok.clonesAcc hcl
+      have hr := h4.respIn s (lookup_mem hl) hacc cn.hist (by simp [histAt, hc])
+      split
+      · exact h4
+      · split
+        · exact h4
+        · refine inv4_put h h4 hl rfl rfl rfl rfl (fun a => a) [.data s.meth s.subId p] (by simp) ?_ ?_ ?_
+            (by simp [dataOf]) (by simp [closeCount, Frame.isCloseFor])
+          · intro f hf _
+            simp at hf; subst hf
+            simp [Frame.fits, hacc]
+          · intro _; exact List.mem_append.mpr (Or.inl hr)
+          · intro f _ x _; exact hr
+
 theorem inv4_quiet {st : State} (h : Inv st) (h4 : Inv4 st) {k : Nat} {s s' : Sub} {cn cn' : Conn}
     (hl : lookup st k = some (s, cn))
     (hconn : s'.conn = s.conn) (hmeth : s'.meth = s.meth) (hid : s'.subId = s.subId) (hrid : s'.reqId = s.reqId)
@@ -659,7 +686,7 @@ theorem inv4_subscribe {st : State} (h4 : Inv4 st) (c m rid sid : Nat)
           · simpa using closeCount_zero_of_no_notif _ l (no_frame_for_fresh h4 _ l hcl _ hfresh)
         · intro i j si sj hi hj hij
           have old : ∀ (n : Nat) (t : Sub),
-              (st.subs ++ [({ conn := c, meth := m, subId := sid, reqId := rid } : Sub)])[n]? = some t →
+              (st.subs ++ [({ conn := c, meth := m, subId := sid, reqId := rid, handlerDone := rawMeth m, taskDone := rawMeth m } : Sub)])[n]? = some t →
               st.subs[n]? = some t ∨ (n = st.subs.length ∧ t.subId = sid) := by
             intro n t hn
             rw [List.getElem?_append] at hn
@@ -686,6 +713,7 @@ theorem inv4_step {st : State} (h : Inv st) (h4 : Inv4 st) (op : Op) (hf : fresh
   | reject k code => exact inv4_refuse h h4 k code .rejected (by decide)
   | dropPending k => exact inv4_refuse h h4 k internalCode .dropped (by decide)
   | send k p => exact inv4_send h h4 k p
+  | sendResume k p => exact inv4_sendResume h h4 k p
   | cloneSink k => exact inv4_clone h h4 k
   | dropSink k => exact inv4_dropSink h h4 k
   | isClosed k =>
@@ -795,8 +823,10 @@ structure SubRel (op : Op) (out : Out) (k : Nat) (s s' : Sub) : Prop where
   unsub : s.unsubscribed = true → s'.unsubscribed = true
   acc : s.phase = .accepted → s'.phase = .accepted
   closeSent : s.closeSent = true → s'.closeSent = true
-  /-- `produced` changes only by a successful `send k p`, which appends `p` -/
-  prod : s'.produced = s.produced ∨ ∃ p, op = .send k p ∧ out = .ok ∧ s'.produced = s.produced ++ [p]
+  /-- `produced` changes only by a successful `send k p` (or the resumption of a parked one), which
+  appends `p` -/
+  prod : s'.produced = s.produced ∨
+    ∃ p, (op = .send k p ∨ op = .sendResume k p) ∧ out = .ok ∧ s'.produced = s.produced ++ [p]
 
 /-- how a connection may change in one step: never reopened, history only grows -/
 structure ConnRel (cn cn' : Conn) : Prop where
@@ -902,7 +932,19 @@ theorem step_shape (st : State) (op : Op) : Shape st op (step st op).2 (step st 
         · exact .same
         · split
           · exact .same
-          · exact .put hl ⟨rfl, rfl, rfl, rfl, id, id, id, Or.inr ⟨p, rfl, rfl, rfl⟩⟩ (connRel_push _ _)
+          · exact .put hl ⟨rfl, rfl, rfl, rfl, id, id, id, Or.inr ⟨p, Or.inl rfl, rfl, rfl⟩⟩ (connRel_push _ _)
+  | sendResume k p =>
+    simp only [step, doSendResume]
+    split
+    · exact .same
+    · rename_i s cn hl
+      split
+      · exact .same
+      · split
+        · exact .same
+        · split
+          · exact .same
+          · exact .put hl ⟨rfl, rfl, rfl, rfl, id, id, id, Or.inr ⟨p, Or.inr rfl, rfl, rfl⟩⟩ (connRel_push _ _)
   | cloneSink k =>
     simp only [step, doClone]
     split
